@@ -81,13 +81,26 @@ def _dyn_getattr(ip, a, kw, node):
     return default
 
 
-R.EXTERNALS["builtins.getattr:dynamic"] = R.ExtFn(_dyn_getattr)
+def _dyn_dispatch(ip, a, kw, node):
+    for h in getattr(R, "DYN_GETATTR", []):
+        r = h(ip, a, kw, node)
+        if r is not None:
+            return r
+    return _dyn_getattr(ip, a, kw, node)
+
+
+R.EXTERNALS["builtins.getattr:dynamic"] = R.ExtFn(_dyn_dispatch)
+
+
+is_noop = declare_pred("is_noop", L.V, L.B)
 
 
 def _instantiate(path):
     def f(ip, a, kw, node):
         obj = ZV(L.fresh("rw_" + path.split(":")[1]), "Rewriter")
         ip.st.assume(obj.term != L.NONE)
+        if path.endswith(":NoOpRewriter"):
+            ip.st.assume(is_noop(obj.term))
         ip.st.assume(L.fn("rewriter_class", L.V, L.V)(obj.term) == L.atom("rwclass", path))
         return obj
     return R.ExtFn(f)
